@@ -3,7 +3,8 @@
 Ties:
  (X) `Quantity.__DISPATCH_TABLE` (function, handler) and the unit definitions at the bottom of SI.py are
      extracted on every run into `lean/NutilsVerif/Generated/C20.lean`; `Props/C20.lean` proves
-     `dispatch_table_sound` and `si_units_sound` over every generated entry.
+     `dispatch_table_sound`, `dispatch_units_invariant` and `unit_names_unambiguous` over every generated entry; that the model
+     run over the extracted unit definitions reproduces the SI specification table is checked with the compiled model.
  (M) real `Dimension`/`Quantity`/`parse`/`Units`/`__format__`/`unit.create` against the Lean model
      (`Model/C20.lean`, `Model/C20Unit.lean`) on generated exponent vectors, unit strings and handler calls.
 Specification oracles used for failing inputs (never "model != code" alone):
@@ -1674,7 +1675,7 @@ def _run(c):
     c.write_generated('C20.lean', generated_text(entries, defs))
     if unsupported:
         c.extra['unsupported_unit_definitions'] = unsupported
-    broken = [] if os.environ.get('NVH_DEV_SKIP_BUILD') else c.build_and_audit()
+    broken = [] if os.environ.get('NVH_DEV_SKIP_BUILD') else c.build_and_audit()      # the switch is for harness development only
     c.log('lean build + audit done')
     out = {}
     n = (lambda q, t: q if quick else t)
